@@ -187,6 +187,7 @@ class C05(Prop):
                    'the 100 ms processing budget is neutralised by the virtual clock except where it is jumped on purpose']
     quick_examples = 1000
     thorough_examples = 5000
+    fuzz_runs = 8000
     floors = {'over_variables': 0.25, 'over_string': 0.15, 'over_collection': 0.15, 'over_depth': 0.1}
 
     def strategy(self, tier):
